@@ -152,6 +152,12 @@ def run(ctx, widen=False):
                 "port-size symbol, child.resource reference, compound size over a local}; distinct generator seeds")
     base = ctx.seed * 1000003 + 1500000
     pipeline.run_stream(ctx, __name__, range(base, base + n))
+    # second family: repetition wrappers everywhere, mostly closed-form and custom sequences whose bound names (placeholder,
+    # iterator) are spelled like names of outer scopes, parameters handed down through multi-level links — the places where an
+    # inner name can survive in a retained repetition field
+    pipeline.run_stream(ctx, __name__, range(base + 70000, base + 70000 + n // 2),
+                        extra={"p_rep": 0.6, "rep_kinds": ["closed_form", "closed_form", "custom", "constant"], "p_placeholder_clash": 0.7,
+                               "p_deep_link": 0.6, "symbolic_rep": 0.9})
     corpus(ctx)
 
 
